@@ -214,6 +214,9 @@ func Read(r *bufio.Reader, l *log.Logger) (Message, error) {
 			return HaveNone{}, nil
 		}
 	case 20:
+		if length < 2 {
+			return nil, ErrParse
+		}
 		subtype, err := r.ReadByte()
 		if err != nil {
 			return nil, err
